@@ -241,27 +241,28 @@ def dfa_isomorphic(D1: DFA, D2: DFA) -> bool:
         for a in Sigma:
             q1_ = D1.delta[q1, a]
             q2_ = D2.delta[q2, a]
-            if matching[q1_, q2_]:
+            if not matching[q1_, q2_]:
                 if (q1_ in F1) == (q2_ in F2):
                     matching[q1_, q2_] = True
                     to_inspect.add((q1_, q2_))
                 else:
                     return False
 
+    # every state is matched with at most one state (unreachable states are matched with none)
     for q1 in Q1:
-        count = 1
+        count = 0
         for q2 in Q2:
             if matching[q1, q2]:
                 count = count + 1
-        if count != 1:
+        if count > 1:
             return False
 
     for q2 in Q2:
-        count = 1
+        count = 0
         for q1 in Q1:
             if matching[q1, q2]:
                 count = count + 1
-        if count != 1:
+        if count > 1:
             return False
 
     return True
@@ -273,22 +274,24 @@ def dfa_isomorphic1(D1: DFA, D2: DFA) -> bool:
     F1 = D1.F
     F2 = D2.F
 
-    matching = {}
+    matching = {}   # maps states of D1 to states of D2
+    inverse = {}    # maps states of D2 to states of D1
     todo = {(D1.q0, D2.q0)}
 
     while len(todo) > 0:
         (q1, q2) = set_element(todo)
         todo.remove((q1, q2))
+        if q1 in matching or q2 in inverse:
+            # the matching must be a function in both directions
+            if matching.get(q1) != q2 or inverse.get(q2) != q1:
+                return False
+            continue
         if (q1 in F1) != (q2 in F2):
             return False
         matching[q1] = q2
+        inverse[q2] = q1
         for a in Sigma:
-            q1_ = D1.delta[q1, a]
-            q2_ = D2.delta[q2, a]
-            if q1_ not in matching:
-                todo.add((q1_, q2_))
-            elif q2_ != matching[q1_]:
-                return False
+            todo.add((D1.delta[q1, a], D2.delta[q2, a]))
 
     return True
 
